@@ -365,7 +365,9 @@ func (sc *collection) doBuild(ctx context.Context) (Provider, error) {
 	}
 
 	// Phase 7: Run scoped initializers for the root scope
+	p.voidReturnScopedDescriptorsMu.Lock()
 	p.voidReturnScopedDescriptors = voidReturnScoped
+	p.voidReturnScopedDescriptorsMu.Unlock()
 	for _, descriptor := range voidReturnScoped {
 		if _, err := p.rootScope.createInstance(descriptor); err != nil {
 			_ = p.Close()
